@@ -11,7 +11,11 @@ ALPHAS = {"C11": {0: "ab", 1: "ab", 2: "ab", 3: "f([x", 4: "abcd", 5: "abc", 6: 
           "C12": {20: "()x", 21: "()", 22: "()[]"},
           # C19: statically typed outputs with destructors - a zero-sized one and a one-byte one - through group([..;N]), collect_exactly,
           # tuple group, Vec collect, folds; parse and check; every value created must be dropped exactly once
-          "C19": {30: "ab", 31: "ab", 32: "ab", 33: "ab"}}
+          "C19": {30: "ab", 31: "ab", 32: "ab", 33: "ab"},
+          # C10 / C07: the input types driven through the `Input` trait: IoInput answers every request history by position (40);
+          # Input::map cursors (reached through next_maybe / next_ref) and the span of every pair of them = the model's span formula (41)
+          "C10": {40: "abc", 41: "abc"},
+          "C07": {41: "abc"}}
 
 def build(timeout=900):
     d = os.path.join(ROOT, "staticharness")
